@@ -284,6 +284,12 @@ func (g *G) genDidMsg() (sdk.Msg, string) {
 	for _, a := range curAuth {
 		cur = append(cur, a[0].(int))
 	}
+	atLimit := e != nil && e.Seq == ^uint64(0)
+	if atLimit && kind == "deactivate" {
+		// a deactivation at sequence 2^64-1 would store the tombstone at the wrapped sequence 0,
+		// the encoding of "never existed": unreachable by transactions, outside the domain
+		kind = "update"
+	}
 	if kind == "deactivate" {
 		content := docBytes(&didtypes.DIDDocument{Id: did})
 		vmid, sig, how := g.proof(stored, cur, content, seq, stored)
@@ -302,7 +308,7 @@ func (g *G) genDidMsg() (sdk.Msg, string) {
 		}
 	}
 	var doc *didtypes.DIDDocument
-	if g.chance("update-to-empty", g.bias("update-to-empty", 5)) {
+	if !atLimit && g.chance("update-to-empty", g.bias("update-to-empty", 5)) {
 		doc = &didtypes.DIDDocument{}
 		note = "did-update-to-empty"
 		if g.chance("blank-id-with-content", 50) {
@@ -513,7 +519,12 @@ func (g *G) genDidGenesis(cdc codec.JSONCodec, keys []world.DIDKey, consistent .
 		g.W = &world.World{Keys: keys}
 		doc := g.genDoc(about, []int{g.intn("gen-auth", 6)})
 		g.W = saved
-		gs.Documents[key] = &didtypes.DIDDocumentWithSeq{Document: doc, Sequence: uint64(g.intn("gen-seq", 3))}
+		seq := uint64(g.intn("gen-seq", 3))
+		if g.chance("gen-seq-boundary", 25) {
+			// counters next to their limits (any sequence passes the genesis validation)
+			seq = pick(g, "gen-seq-limit", []uint64{1 << 32, 1<<63 - 1, 1 << 63, ^uint64(0) - 1, ^uint64(0)})
+		}
+		gs.Documents[key] = &didtypes.DIDDocumentWithSeq{Document: doc, Sequence: seq}
 	}
 	bz, err := cdc.MarshalJSON(gs)
 	if err != nil {
